@@ -46,7 +46,7 @@ func (Engine) Info(prop string) core.Info {
 			Real:            realCode,
 			Stub:            []string{"clock (testing/synctest)", "link with cut faults (sim/pipe)", "mailbox handlers (ref/mbox with storage-error knob)"},
 			Assumptions:     []string{"answer policies other than 'accept' and 'already received' are left to C01", "library runs on the Go 1.26.8 standard library"},
-			QuickRuns:       48,
+			QuickRuns:       40,
 			ThoroughRuns:    160,
 			WatchdogSec:     900,
 			HangIsViolation: true,
@@ -66,7 +66,7 @@ func (Engine) Info(prop string) core.Info {
 	case "C04":
 		return core.Info{
 			Level:        "fault_enumeration",
-			Rule:         "one plan = one scenario (arm peer: reference peer sends 1-2 messages to a real Session; arm two: two real Sessions, A sends 1-2 messages to B). A fault-free pilot records the sender's byte stream; an independent scanner locates each SOH..EOT range; then every damage pattern is executed as its own simulated run: at every offset of the range a +1 substitution, a ^0x80 substitution, a seeded substitution, a deletion and an insertion; 150 seeded sum-preserving pairs (+d at i, -d at j over the data bytes, every fifth inside the 6-byte CRC/size header) and up to 400 adjacent swaps (quick tier: thinned to 3000 per transfer). The altered stream is judged by the reference receiver (independent frame parser, announced compressed length, offset, independent LZHUF decoder with CRC-16 and size check); the Session must deliver iff allowed and then exactly the reference decoding. evaluations = executions; distinct = distinct event-log hashes of the faulty executions.",
+			Rule:         "one plan = one scenario (arm peer: reference peer sends 1-2 messages to a real Session; arm two: two real Sessions, A sends 1-2 messages to B). A fault-free pilot records the sender's byte stream; an independent scanner locates each SOH..EOT range; then every damage pattern is executed as its own simulated run: at every offset of the range a +1 substitution, a ^0x80 substitution, a seeded substitution, a '*' substitution, a deletion and an insertion; every framing byte (SOH, each STX, EOT) replaced by each of NUL SOH STX EOT 'F' ';' CR; 150 seeded sum-preserving pairs (+d at i, -d at j over the data bytes, every fifth inside the 6-byte CRC/size header) and up to 400 adjacent swaps (quick tier: thinned to 3000 per transfer). The altered stream is judged by the reference receiver (independent frame parser, announced compressed length, offset, independent LZHUF decoder with CRC-16 and size check); the Session must deliver iff allowed and then exactly the reference decoding. evaluations = executions; distinct = distinct event-log hashes of the faulty executions.",
 			Real:         realCode,
 			Stub:         []string{"clock (testing/synctest)", "link with in-flight edits (sim/pipe)", "sender in arm peer (ref/b2f)", "reference receiver (ref/b2f frame parser + independent LZHUF decoder)", "mailbox handlers (ref/mbox)"},
 			Assumptions:  []string{"alterations are enumerated for the first two transfers of a scenario", "library runs on the Go 1.26.8 standard library"},
